@@ -44,14 +44,8 @@ namespace Emu
 namespace Copy
 open C03V
 
-def copyCode : List Nat := [
-  0x02,0x00,0x02,0xc0,0x04,0x00,0x00,0x00, 0x7f,0x00,0x8c,0xbf, 0x00,0xff,0x00,0x86,0xff,0xff,0x00,0x00,
-  0x08,0x00,0x08,0x92, 0x83,0x00,0x02,0xc0,0x10,0x00,0x00,0x00, 0x03,0x00,0x06,0xc0,0x18,0x00,0x00,0x00,
-  0x08,0x00,0x00,0x32, 0x7f,0x00,0x8c,0xbf, 0x00,0x00,0x00,0x32, 0x02,0x00,0x88,0x7d, 0x6a,0x20,0x80,0xbe,
-  0x12,0x00,0x88,0xbf, 0x03,0x00,0x0a,0xc0,0x00,0x00,0x00,0x00, 0x80,0x02,0x02,0x7e, 0x00,0x03,0x04,0x7e,
-  0x00,0x00,0x91,0xd2,0x9e,0x02,0x02,0x00, 0x7f,0x00,0x8c,0xbf, 0x01,0x02,0x06,0x7e, 0x00,0x00,0x04,0x32,
-  0x03,0x03,0x06,0x38, 0x00,0x00,0x50,0xdc,0x02,0x00,0x00,0x02, 0x03,0x02,0x06,0x7e, 0x02,0x00,0x00,0x32,
-  0x03,0x03,0x02,0x38, 0x70,0x00,0x8c,0xbf, 0x00,0x00,0x70,0xdc,0x00,0x02,0x00,0x00, 0x00,0x00,0x81,0xbf]
+/-- the byte image of the kernel: the model's literal, tied to memcopy.hsaco by the case `c01 copycode` -/
+abbrev copyCode : List Nat := copyKernelCode
 
 def P : Program := ⟨copyCode, false⟩
 
